@@ -7,6 +7,7 @@ import BV.C01.Loops
 import BV.C01.ChainUnique
 import BV.C01.ChainComplete
 import BV.C01.HeightLemmas
+import BV.C01.ApiLemmas
 import BV.Generated.C01
 import BV.C09.Model
 namespace BV.C01
@@ -459,6 +460,29 @@ theorem go_fee_loop_is_rule (fees : List Int) (h : ∀ f ∈ fees, 0 ≤ f ∧ f
 
 example : Loops.goOutputs [2100000000000000] 0 = true ∧ Loops.goOutputs [2100000000000000, 1] 0 = false ∧
     Loops.goOutputs [-1] 0 = false := by decide
+
+/-! ### the stand-alone exported checks (mirrors used by the `api` / `txs` ops) against the rule predicates -/
+
+/-- `CheckTransactionSanity` (mirror `txSanityClass`, compared with the real function on every `api`/`txs` case)
+    answers "ok" exactly when the transaction-level sanity rules hold for the transaction. -/
+theorem go_check_tx_sanity_is_rules (t : TxFacts) :
+    txSanityClass t = "ok" ↔
+      (t.ins.isEmpty = false ∧ t.outs.isEmpty = false ∧ t.strippedSize ≤ MAX_BLOCK_BASE_SIZE ∧
+       (t.outs.all moneyRange && moneyRange t.outSum) = true ∧ t.dupInputs = false ∧
+       (t.isCoinbase = true → MIN_COINBASE_SCRIPT_LEN ≤ t.script0Len ∧ t.script0Len ≤ MAX_COINBASE_SCRIPT_LEN) ∧
+       (t.isCoinbase = false → t.ins.any (·.null) = false)) :=
+  ApiLemmas.txSanity_ok_iff t
+
+/-- The input loop of `CheckTransactionInputs` (mirror `inputsLoop`) succeeds exactly when every input exists, is
+    not null, is mature if it is a coinbase output, has an amount in the money range and the total stays in
+    range; the value returned is the total (the rule clauses missingInput, immature, inValue for one tx). -/
+theorem go_input_loop_is_rules (height maturity : Int) (ins : List InFacts) (acc tot : Int)
+    (h0 : 0 ≤ acc) (h1 : acc ≤ MAX_MONEY) :
+    inputsLoop height maturity ins acc = .ok tot ↔
+      (∀ i ∈ ins, i.avail = true ∧ i.null = false ∧
+          (i.isCb = true → maturity ≤ height - i.originHeight) ∧ moneyRange i.amount = true) ∧
+      acc + sumInt (ins.map (·.amount)) ≤ MAX_MONEY ∧ tot = acc + sumInt (ins.map (·.amount)) :=
+  ApiLemmas.inputsLoop_ok_iff height maturity ins acc tot h0 h1
 
 /-! ### BIP34: `ExtractCoinbaseHeight` / `CheckSerializedHeight` on the script bytes -/
 
